@@ -56,6 +56,13 @@ type c17Case struct {
 	FileDepr   bool         `json:"file_deprecated"`
 	Imported   bool         `json:"imported"` // request/response types live in an imported file
 	NoServices bool         `json:"no_services"`
+	// GoTail: last element of the Go import path of the file (and of the
+	// imported file's, when Imported); default "y".  Generated code refers to
+	// packages named http, context, errors, strings and connect_go itself.
+	GoTail string `json:"go_tail,omitempty"`
+	// Sibling: the request also generates (first) a file of another proto
+	// package that declares the same service and method names.
+	Sibling bool `json:"sibling,omitempty"`
 }
 
 func (k c17Case) key() string {
@@ -67,7 +74,14 @@ func (k c17Case) key() string {
 		}
 		parts = append(parts, fmt.Sprintf("%s(d%v,c%d)[%s]", s.Name, b2i(s.Deprecated), s.Comment, strings.Join(ms, ",")))
 	}
-	return fmt.Sprintf("pkg=%q/gopkg%d/fdep%v/imp%v/%s", k.Package, k.GoPkgForm, b2i(k.FileDepr), b2i(k.Imported), strings.Join(parts, "+"))
+	extra := ""
+	if k.GoTail != "" {
+		extra += "/tail=" + k.GoTail
+	}
+	if k.Sibling {
+		extra += "/sibling"
+	}
+	return fmt.Sprintf("pkg=%q/gopkg%d/fdep%v/imp%v/%s%s", k.Package, k.GoPkgForm, b2i(k.FileDepr), b2i(k.Imported), strings.Join(parts, "+"), extra)
 }
 
 func b2i(b bool) int {
@@ -85,7 +99,12 @@ var c17Comments = []string{
 	" " + strings.Repeat("Loooooooong", 20) + " word and then some more ordinary words that need wrapping because the line is long.\n",
 }
 
-func (k c17Case) goImportPath() string { return fmt.Sprintf("ex.com/c%d/y", k.ID) }
+func (k c17Case) goImportPath() string {
+	if k.GoTail != "" {
+		return fmt.Sprintf("ex.com/c%d/%s", k.ID, k.GoTail)
+	}
+	return fmt.Sprintf("ex.com/c%d/y", k.ID)
+}
 
 func (k c17Case) fqService(s c17Service) string {
 	if k.Package == "" {
@@ -123,7 +142,7 @@ func (k c17Case) build() *pluginpb.CodeGeneratorRequest {
 	}
 	if k.Imported {
 		dep := &descriptorpb.FileDescriptorProto{Name: proto.String(depName), Syntax: proto.String("proto3"), Package: proto.String("dep.v1"),
-			Options:     &descriptorpb.FileOptions{GoPackage: proto.String(fmt.Sprintf("ex.com/c%d/dep;depv1", k.ID))},
+			Options:     &descriptorpb.FileOptions{GoPackage: proto.String(k.depGoPackage())},
 			MessageType: []*descriptorpb.DescriptorProto{msg("Req"), msg("Res")}}
 		req.ProtoFile = append(req.ProtoFile, dep)
 		req.FileToGenerate = append([]string{depName}, req.FileToGenerate...)
@@ -162,11 +181,33 @@ func (k c17Case) build() *pluginpb.CodeGeneratorRequest {
 		}
 	}
 	fd.SourceCodeInfo = sci
+	if k.Sibling && !k.NoServices {
+		// same service and method names in another proto package, generated first
+		sib := &descriptorpb.FileDescriptorProto{Name: proto.String(fmt.Sprintf("t/sib%d.proto", k.ID)), Syntax: proto.String("proto3"), Package: proto.String("sib.v2"),
+			Options:     &descriptorpb.FileOptions{GoPackage: proto.String(fmt.Sprintf("ex.com/c%d/sib;sibv2", k.ID))},
+			MessageType: []*descriptorpb.DescriptorProto{msg("Req"), msg("Res")}}
+		for _, sd := range fd.Service {
+			cp := proto.Clone(sd).(*descriptorpb.ServiceDescriptorProto)
+			for _, md := range cp.Method {
+				md.InputType, md.OutputType = proto.String(".sib.v2.Req"), proto.String(".sib.v2.Res")
+			}
+			sib.Service = append(sib.Service, cp)
+		}
+		req.ProtoFile = append(req.ProtoFile, sib)
+		req.FileToGenerate = append([]string{sib.GetName()}, req.FileToGenerate...)
+	}
 	req.ProtoFile = append(req.ProtoFile, fd)
 	if k.GoPkgForm == 2 {
 		req.Parameter = proto.String(fmt.Sprintf("M%s=%s", fileName, k.goImportPath()))
 	}
 	return req
+}
+
+func (k c17Case) depGoPackage() string {
+	if k.GoTail != "" {
+		return fmt.Sprintf("ex.com/c%d/dep/%s", k.ID, k.GoTail) // package name = last element
+	}
+	return fmt.Sprintf("ex.com/c%d/dep;depv1", k.ID)
 }
 
 type pluginEnv struct {
@@ -395,8 +436,22 @@ func c17Check(c *ev.Collector, env *pluginEnv, k c17Case) *c17Gen {
 	}
 	var connectFiles []*pluginpb.CodeGeneratorResponse_File
 	for _, f := range resp.File {
-		if strings.HasSuffix(f.GetName(), ".connect.go") {
+		if strings.HasSuffix(f.GetName(), ".connect.go") && !strings.HasSuffix(f.GetName(), fmt.Sprintf("sib%d.connect.go", k.ID)) {
 			connectFiles = append(connectFiles, f)
+		}
+	}
+	if k.Sibling {
+		// what is generated for a file must not depend on the other files of the request
+		alone := k
+		alone.Sibling = false
+		if respAlone, _, errAlone := runPlugin(env.connectGo, alone.build()); errAlone == nil && respAlone.Error == nil {
+			for _, fa := range respAlone.File {
+				for _, f := range connectFiles {
+					if fa.GetName() == f.GetName() && fa.GetContent() != f.GetContent() {
+						viol("deterministic", "depends-on-request", "%s differs when another file with the same service names is generated in the same request", f.GetName())
+					}
+				}
+			}
 		}
 	}
 	if k.NoServices || len(k.Services) == 0 {
@@ -586,8 +641,7 @@ func c17Compile(c *ev.Collector, env *pluginEnv, batch []*c17Gen) {
 	}
 }
 
-func c17Cases(thorough bool) []c17Case {
-	var out []c17Case
+func c17Cases(thorough bool) (out []c17Case) {
 	id := 0
 	add := func(k c17Case) {
 		id++
@@ -595,6 +649,30 @@ func c17Cases(thorough bool) []c17Case {
 		out = append(out, k)
 	}
 	kinds := [][2]bool{{false, false}, {true, false}, {false, true}, {true, true}}
+	defer func() {
+		// Go package names that collide with identifiers the generated code uses, and multi-file requests
+		for _, tail := range []string{"http", "context", "errors", "strings", "connect", "connect_go", "pingv1connect"} {
+			for _, form := range []int{0, 2} {
+				for _, imp := range []bool{false, true} {
+					k := c17Case{Package: "a.b.v1", GoPkgForm: form, Imported: imp, GoTail: tail, Services: []c17Service{{Name: "Svc", Methods: []c17Method{{Name: "Do"}, {Name: "Up", ClientStream: true}}}}}
+					id++
+					k.ID = id
+					out = append(out, k)
+				}
+			}
+		}
+		for _, pkg := range []string{"a.b.v1", ""} {
+			for _, svcs := range []int{1, 2} {
+				k := c17Case{Package: pkg, Sibling: true}
+				for i := 0; i < svcs; i++ {
+					k.Services = append(k.Services, c17Service{Name: []string{"Svc", "S2"}[i], Methods: []c17Method{{Name: "Do"}, {Name: "Get", ServerStream: true}}})
+				}
+				id++
+				k.ID = id
+				out = append(out, k)
+			}
+		}
+	}()
 	base := func() c17Case {
 		return c17Case{Package: "a.b.v1", Services: []c17Service{{Name: "Svc", Methods: []c17Method{{Name: "Do"}}}}}
 	}
